@@ -263,6 +263,7 @@ pub fn c08(args: &Args, rep: &mut Report) {
                 for set in subsets(k, if k > 3 && !t { 1 } else if t { 3 } else { 2 }) {
                     let assign: HashMap<String, Mode> = nodes.iter().enumerate().map(|(i, n)| (n.clone(), if set.contains(&i) { Mode::Conc } else { Mode::LR })).collect();
                     let (s2, d2, e2, a2) = (s.clone(), data.clone(), exp.clone(), assign.clone());
+                    crate::set_current(&format!("C library, blake3_hasher_update_tbb {:?} with concurrent nodes {:?}", s, set));
                     let n = crate::explore_iterative(if set.len() >= 3 { 2 } else { bound }, if t { None } else { Some(60) }, 20_000, move || {
                         ctl(|c| {
                             c.assign = a2.clone();
@@ -355,6 +356,12 @@ fn tsan_pass(rep: &mut Report) {
 // ------------------------------------------------------------------------------------------------
 // C18, C side
 
+const NCSEQ: usize = 7;
+
+fn long_context(which: usize) -> Vec<u8> {
+    (0..1100 + 7 * which).map(|i| (b'a' + ((i * (3 + which) + i / 11) % 26) as u8)).collect()
+}
+
 fn c_sizes() -> (usize, usize, usize) {
     // (seq 0 first update, seq 0 second update, seq 1 update)
     if crate::rust_side::HEAVY.load(std::sync::atomic::Ordering::SeqCst) { (3000, 6000, 6000) } else { (1500, 2500, 3000) }
@@ -365,7 +372,7 @@ fn c_sequence(which: usize, data: &[u8]) -> Vec<u8> {
     unsafe {
         let mut h: Hasher = std::mem::zeroed();
         let mut out = vec![0u8; 150];
-        match which % 5 {
+        match which % NCSEQ {
             3 => {
                 blake3_hasher_init(&mut h);
                 blake3_hasher_update(&mut h, data.as_ptr() as *const _, 1025);
@@ -387,6 +394,14 @@ fn c_sequence(which: usize, data: &[u8]) -> Vec<u8> {
                 blake3_hasher_update(&mut h, data[100..].as_ptr() as *const _, s1);
                 blake3_hasher_finalize_seek(&h, 64 * (1u64 << 32) - 64, out.as_mut_ptr(), 150);
             }
+            5 | 6 => {
+                // key derivation with a context longer than a chunk (hashed as a tree of its own), a
+                // different one per sequence
+                let ctx = long_context(which % NCSEQ);
+                blake3_hasher_init_derive_key_raw(&mut h, ctx.as_ptr() as *const _, ctx.len());
+                blake3_hasher_update(&mut h, data.as_ptr() as *const _, 70);
+                blake3_hasher_finalize_seek(&h, 0, out.as_mut_ptr(), 150);
+            }
             _ => {
                 let ctx = b"vsched c context";
                 blake3_hasher_init_derive_key_raw(&mut h, ctx.as_ptr() as *const _, ctx.len());
@@ -400,7 +415,8 @@ fn c_sequence(which: usize, data: &[u8]) -> Vec<u8> {
 
 fn c_spec(which: usize, data: &[u8]) -> Vec<u8> {
     let (s0a, s0b, s1) = c_sizes();
-    match which % 5 {
+    match which % NCSEQ {
+        5 | 6 => b3spec::xof(&b3spec::Mode::derive(&long_context(which % NCSEQ)), &data[..70], 0, 150),
         3 => b3spec::xof(&b3spec::Mode::hash(), &data[..1025], 0, 150),
         4 => b3spec::xof(&b3spec::Mode::keyed(vcommon::TEST_KEY), &data[..100], 63, 150),
         0 => b3spec::xof(&b3spec::Mode::hash(), &data[..s0a + s0b], 0, 150),
@@ -413,9 +429,9 @@ pub fn c18(args: &Args, rep: &mut Report) {
     let t = args.thorough();
     crate::rust_side::HEAVY.store(t, std::sync::atomic::Ordering::SeqCst);
     let data = std::sync::Arc::new(vcommon::stream_b(args.seed ^ 0x18C, 80 * 1024));
-    let solo: Vec<Vec<u8>> = (0..5).map(|w| c_spec(w, &data)).collect();
+    let solo: Vec<Vec<u8>> = (0..NCSEQ).map(|w| c_spec(w, &data)).collect();
     let real = real_mask();
-    for w in 0..5 {
+    for w in 0..NCSEQ {
         rep.inc("evaluations");
         rep.inc("spec_comparisons");
         set_features(UNDEFINED);
@@ -423,10 +439,11 @@ pub fn c18(args: &Args, rep: &mut Report) {
             record("c:solo:differs-from-spec", format!("C operation sequence {} alone differs from the spec", w), json!({"property": "C18", "engine": "sched/c", "sequence": w, "check": "c:solo:differs-from-spec"}));
         }
     }
-    let combos: Vec<Vec<usize>> = if t { vec![vec![0, 1], vec![1, 2], vec![0, 2], vec![1, 1], vec![4, 2], vec![3, 4, 2], vec![0, 1, 2], vec![2, 2, 1]] } else { vec![vec![0, 1], vec![1, 2], vec![1, 1], vec![3, 4], vec![4, 2], vec![3, 4, 0], vec![4, 4, 3]] };
+    let combos: Vec<Vec<usize>> = if t { vec![vec![0, 1], vec![1, 2], vec![0, 2], vec![1, 1], vec![4, 2], vec![5, 6], vec![5, 5], vec![3, 4, 2], vec![0, 1, 2], vec![2, 2, 1]] } else { vec![vec![0, 1], vec![1, 2], vec![1, 1], vec![3, 4], vec![4, 2], vec![5, 6], vec![3, 4, 0], vec![4, 4, 3]] };
     for combo in combos {
         let bound = if combo.len() == 3 { 2 } else if t { 3 } else { 2 };
         let (c2, d2, s2) = (combo.clone(), data.clone(), solo.clone());
+        crate::set_current(&format!("C library, threads running operation sequences {:?} on their own hashers", combo));
         let n = crate::explore_iterative(bound, if t { None } else { Some(110) }, 50_000, move || {
             // every execution starts with an empty feature cache: detection itself races
             set_features(UNDEFINED);
